@@ -35,6 +35,28 @@ class ToolingError(Exception):
     pass
 
 
+class LibraryCrash(Exception):
+    """The driver process died of a Go panic raised INSIDE the code under test, in a goroutine the harness cannot
+    protect with recover() (a worker the library started itself): real behaviour of the code - a verdict, not a tooling
+    problem.  A panic whose first frames are the harness's own stays a tooling error."""
+    def __init__(self, family, text):
+        Exception.__init__(self, text)
+        self.family, self.text = family, text
+
+
+def library_panic(stderr):
+    """The text of the panic when the stack of the dying goroutine starts in the code under test, else None."""
+    i = stderr.find("panic: ")
+    if i < 0:
+        return None
+    tail = stderr[i:]
+    frames = [l.strip() for l in tail.splitlines() if re.match(r"^[A-Za-z0-9_./\-]+(\.\(\*?\w+\))?\.[\w.]+\(", l.strip())]
+    frames = [f for f in frames if not f.startswith(("panic(", "runtime.", "created by"))]
+    if frames and frames[0].startswith("github.com/evolbioinfo/goalign/") and "/verifhook" not in frames[0]:
+        return tail[:1500]
+    return None
+
+
 def log(*a):
     print("[check]", *a, file=sys.stderr, flush=True)
 
@@ -249,6 +271,9 @@ def drive(work, family, cases=None, n=0, seed=1, tier="quick", mode="", extra=""
     except subprocess.TimeoutExpired:
         raise ToolingError("driver %s timed out after %ds" % (family, timeout))
     if r.returncode not in ok_rc:
+        lp = library_panic(r.stderr)
+        if lp:
+            raise LibraryCrash(family, lp)
         raise ToolingError("driver %s exited with %d:\n%s" % (family, r.returncode, r.stderr[-3000:]))
     log("drive %-21s %s  %.1fs" % (family + (":" + mode if mode else ""), r.stderr.strip().splitlines()[-1] if r.stderr.strip() else "", time.time() - t0))
     return out
